@@ -40,11 +40,15 @@ THEOREMS = ["JanetModel.Props.C10." + t for t in (
     "JanetModel.Unmarsh.Bytes.unmarshal_total_inbounds_generic", "JanetModel.Unmarsh.Bytes.unmarshal_terminates_generic",
     "JanetModel.Unmarsh.Bytes.unmarshal_depth_bounded_generic", "JanetModel.Props.C10.unmarshal_depth_bounded_of_sites_ok",
     "JanetModel.Props.C10.real_is_number_of_ok", "JanetModel.Props.C10.real_never_a_pointer_of_ok", "JanetModel.Props.C10.witness_unsafe_real_forges_pointer",
-    "JanetModel.Props.C10.env_valid_sound_of_shape", "JanetModel.Props.C10.witness_env_valid_without_slotcount"]
+    "JanetModel.Props.C10.env_valid_sound_of_shape", "JanetModel.Props.C10.witness_env_valid_without_slotcount",
+    "JanetModel.Unmarsh.Bytes.unmarshal_functions_wf_generic", "JanetModel.Unmarsh.Bytes.function_case_wf_generic",
+    "JanetModel.Props.C10.unmarshal_functions_wf_of_checks", "JanetModel.Props.C10.function_case_wf_of_checks",
+    "JanetModel.Props.C10.witness_env_count_unchecked_bytes"]
 ENVVALID_OBLIGATIONS = ["JanetModel.Unmarsh.EnvValidObligations.env_valid_shape", "JanetModel.Unmarsh.EnvValidObligations.env_valid_sound"]
 NANBOX_OBLIGATIONS = ["JanetModel.Unmarsh.NanBoxObligations." + t for t in ("nanbox_ok", "real_is_number", "real_never_a_pointer")]
 GUARD_OBLIGATIONS = ["JanetModel.Bytecode.GuardObligations.vm_value_guards", "JanetModel.Bytecode.GuardObligations.vm_value_guards_nonempty"]
-BYTES_OBLIGATIONS = ["JanetModel.Unmarsh.BytesObligations." + t for t in ("sites_ok", "refs_checked", "depths_ok", "unmarshal_total_inbounds", "unmarshal_terminates", "unmarshal_depth_bounded", "peg_size_checked", "asm_ok_only_after_verify")] + [
+BYTES_OBLIGATIONS = ["JanetModel.Unmarsh.BytesObligations." + t for t in ("sites_ok", "refs_checked", "depths_ok", "unmarshal_total_inbounds", "unmarshal_terminates", "unmarshal_depth_bounded", "peg_size_checked", "asm_ok_only_after_verify",
+    "fn_checks_on", "unmarshal_functions_wf", "function_case_wf")] + [
     "JanetModel.Unmarsh.PegSize.peg_alloc_covers_writes", "JanetModel.Unmarsh.PegSize.witness_peg_size_wraps"]
 PEG_OBLIGATIONS = ["JanetModel.PegVerify.Obligations." + t for t in ("peg_tables_consistent", "peg_verify_sound")]
 IMAGE_OBLIGATIONS = ["JanetModel.Unmarsh.Obligations." + t for t in ("image_checks_present", "fiber_image_wf", "function_image_wf", "env_untrusted_checked")]
